@@ -17,7 +17,8 @@ CONSTANTS MaxExpA,      \* slice A: one service, every expose list up to this le
           LevelIdx,     \* commit levels used by slice B (indices into LevelTab)
           SizeIdx,      \* resource sizes used by slice B (indices into SizeTab)
           Owners, Providers, DSeqs, GSeqs, OSeqs,    \* slice F: the lease ids (chosen to collide as prefixes)
-          MaxGroupsD    \* slice D: redeploy pairs over the first MaxGroupsD groups of GroupTab
+          MaxGroupsD,   \* slice D: redeploy pairs over the first MaxGroupsD groups of GroupTab
+          MaxGroupsG    \* slice G: pairs of groups for two leases over the first MaxGroupsG groups of GroupTab
 
 E(port, as, proto, global, hosts) == [port |-> port, as |-> as, proto |-> proto, global |-> global, hosts |-> hosts]
 ExposeTab == <<
@@ -81,6 +82,7 @@ SliceB == {In("B", BgL, <<R(<<Web(BgExp, 1 + (sz % 2), SizeTab[sz])>>, Settings(
 SliceC == {In("C", BgL, <<R(<<Web(x, BgCount, SizeTab[BgSize]), Db(y, 1, SizeTab[(BgSize % Len(SizeTab)) + 1])>>, BgSettings(np, BgStatic))>>) :
              x \in ExpLists(MaxExpC1), y \in ExpLists(MaxExpC2), np \in BOOLEAN}
 
+UpdExpose == << E(8080, 0, "TCP", TRUE, <<>>), E(8080, 0, "TCP", FALSE, <<>>), E(9090, 0, "TCP", TRUE, <<>>), E(7070, 7071, "UDP", TRUE, <<>>) >>
 \* slice D: manifest updates (second Deploy on the same lease): every ordered pair of groups, policies on;
 \* plus settings changing between the rounds
 GroupTab == << <<Web(<<>>, 1, SizeTab[1])>>,
@@ -96,8 +98,15 @@ GroupTab == << <<Web(<<>>, 1, SizeTab[1])>>,
                <<Web(<<ExposeTab[10]>>, 2, SizeTab[2]), Db(<<ExposeTab[8], ExposeTab[15]>>, 1, SizeTab[1])>>,
                \* three services
                <<Web(<<ExposeTab[7]>>, 1, SizeTab[1]), Db(<<ExposeTab[10]>>, 1, SizeTab[2]), Api(<<ExposeTab[15], ExposeTab[1]>>, 2, SizeTab[6])>>,
-               <<Api(<<ExposeTab[8]>>, 1, SizeTab[7]), Web(<<ExposeTab[4]>>, 1, SizeTab[3]), Db(<<ExposeTab[15]>>, 1, SizeTab[8])>> >>
+               <<Api(<<ExposeTab[8]>>, 1, SizeTab[7]), Web(<<ExposeTab[4]>>, 1, SizeTab[3]), Db(<<ExposeTab[15]>>, 1, SizeTab[8])>>,
+               \* manifest updates in which a service keeps a node port but its port set changes (13 -> 14: 8080 becomes
+               \* internal and 9090 is opened; 15: the ports swap services; 16: nothing global is left)
+               <<Web(<<UpdExpose[1]>>, 1, SizeTab[1])>>,
+               <<Web(<<UpdExpose[2], UpdExpose[3]>>, 1, SizeTab[1])>>,
+               <<Web(<<UpdExpose[3]>>, 1, SizeTab[1]), Db(<<UpdExpose[1], UpdExpose[4]>>, 1, SizeTab[2])>>,
+               <<Web(<<UpdExpose[2]>>, 1, SizeTab[1])>> >>
 GroupsD == {GroupTab[i] : i \in 1..MaxGroupsD}
+GroupsG == {GroupTab[i] : i \in 1..MaxGroupsG}
 SliceD == {In("D", BgL, <<R(g1, BgSettings(TRUE, BgStatic)), R(g2, Settings(2, 1, 3, TRUE, BgRuntime, BgStatic))>>) : g1 \in GroupsD, g2 \in GroupsD}
      \cup {In("D", BgL, <<R(g, BgSettings(n1, BgStatic)), R(g, Settings(1, 2, 1, n2, 3, ~BgStatic))>>) : g \in GroupsD, n1 \in BOOLEAN, n2 \in BOOLEAN}
 
@@ -118,8 +127,8 @@ SliceF == {In("F", l, <<R(<<Web(<<ExposeTab[7]>>, 1, SizeTab[2])>>, Settings(2, 
 NeighbourOf(ls) == LeaseAt(ls, BgLease + 1)
 SliceG == LET ls == LeaseSeq IN
   {In2("G", BgL, <<R(GroupTab[4], BgSettings(TRUE, BgStatic))>>, l, R(GroupTab[6], BgSettings(TRUE, BgStatic))) : l \in LeaseSet \ {BgL}}
-  \cup {In2("G", BgL, <<R(g1, BgSettings(TRUE, BgStatic))>>, NeighbourOf(ls), R(g2, BgSettings(np, BgStatic))) : g1 \in GroupsD, g2 \in GroupsD, np \in BOOLEAN}
-  \cup {In2("G", BgL, <<R(g1, BgSettings(TRUE, BgStatic)), R(g2, BgSettings(TRUE, BgStatic))>>, NeighbourOf(ls), R(g1, BgSettings(TRUE, BgStatic))) : g1 \in GroupsD, g2 \in GroupsD}
+  \cup {In2("G", BgL, <<R(g1, BgSettings(TRUE, BgStatic))>>, NeighbourOf(ls), R(g2, BgSettings(np, BgStatic))) : g1 \in GroupsG, g2 \in GroupsG, np \in BOOLEAN}
+  \cup {In2("G", BgL, <<R(g1, BgSettings(TRUE, BgStatic)), R(g2, BgSettings(TRUE, BgStatic))>>, NeighbourOf(ls), R(g1, BgSettings(TRUE, BgStatic))) : g1 \in GroupsD, g2 \in GroupsG}
 
 InputSeq == SetToSeq(SliceA \cup SliceB \cup SliceC \cup SliceD \cup SliceE \cup SliceF \cup SliceG)
 NumberedSeq == LET s == InputSeq IN [i \in 1..Len(s) |-> [s[i] EXCEPT !.id = i]]
